@@ -55,8 +55,16 @@ def derivative(poly: PolyLike, *diffvars: Union[ndpoly, str, int]) -> ndpoly:
             (exponent[idx] * coefficient.T).T
             for exponent, coefficient in zip(exponents, poly.coefficients)
         ]
-        exponents[:, idx] -= 1
-        assert not numpy.any(exponents < 0)
+        # terms free of the variable vanish; drop them rather than letting the
+        # unsigned exponent wrap around
+        keep = exponents[:, idx] > 0
+        if numpy.any(keep):
+            exponents = exponents[keep]
+            coefficients = [coeff for coeff, idx_ in zip(coefficients, keep) if idx_]
+            exponents[:, idx] -= 1
+        else:
+            exponents = numpy.zeros((1, len(poly_ref.names)), dtype="uint32")
+            coefficients = [numpy.zeros_like(coefficients[0])]
 
         poly = numpoly.ndpoly.from_attributes(
             exponents=exponents,
